@@ -384,7 +384,7 @@ func init() {
 							default:
 								r = math.Pow(math.Pow(math.Abs(v.X), 4)+math.Pow(math.Abs(v.Y), 4), 0.25)
 							}
-							if math.Abs(r-1) > 1e-9 {
+							if !(math.Abs(r-1) <= 1e-9) {
 								bad = fmt.Sprintf("boundary vertex %v is mapped to %v, which is not on the unit %s", k, v, bname)
 								return false
 							}
@@ -419,12 +419,12 @@ func init() {
 								sum = sum.Add(p.Scale(wt))
 								tot += wt
 							}
-							if math.Abs(tot-1) > 1e-9 {
+							if !(math.Abs(tot-1) <= 1e-9) {
 								res = fmt.Sprintf("VIOLATION weights: weights around %v sum to %v", c, tot)
 								return false
 							}
 							got, _ := uv.Load(c)
-							if got.Dist(sum) > 1e-5 {
+							if !(got.Dist(sum) <= 1e-5) {
 								res = fmt.Sprintf("VIOLATION mean: interior vertex %v is at %v, the weighted mean of its neighbours is %v", c, got, sum)
 								return false
 							}
@@ -578,7 +578,7 @@ func atlasProblem(m *model3d.Mesh, uvm model3d.MeshUVMap, gutters bool) string {
 					c := t[0].Add(t[1]).Add(t[2]).Scale(1.0 / 3)
 					return [3]model2d.Coord{c.Add(t[0].Sub(c).Scale(0.999)), c.Add(t[1].Sub(c).Scale(0.999)), c.Add(t[2].Sub(c).Scale(0.999))}
 				}
-				if math.Abs(uvArea(uvm[a][0], uvm[a][1], uvm[a][2])) > 1e-12 && math.Abs(uvArea(uvm[b][0], uvm[b][1], uvm[b][2])) > 1e-12 && triOverlap2(sh(uvm[a]), sh(uvm[b])) {
+				if !(math.Abs(uvArea(uvm[a][0], uvm[a][1], uvm[a][2])) <= 1e-12) && !(math.Abs(uvArea(uvm[b][0], uvm[b][1], uvm[b][2])) <= 1e-12) && triOverlap2(sh(uvm[a]), sh(uvm[b])) {
 					return fmt.Sprintf("VIOLATION overlap: UV triangles of %v and %v overlap (%v, %v)", *a, *b, uvm[a], uvm[b])
 				}
 			}
@@ -601,7 +601,7 @@ func atlasProblem(m *model3d.Mesh, uvm model3d.MeshUVMap, gutters bool) string {
 					// another triangle may legitimately own the point only if the charts overlap, which was excluded above
 					return fmt.Sprintf("VIOLATION mapfn: UV point %v (barycentric %v of triangle %v) is mapped to triangle %v", q, bc, *t, *gt)
 				}
-				if got.Dist(want) > 1e-6*(1+want.Norm()) {
+				if !(got.Dist(want) <= 1e-6*(1+want.Norm())) {
 					return fmt.Sprintf("VIOLATION mapfn: UV point %v of triangle %v maps to %v, the point with the same barycentric coordinates is %v", q, *t, got, want)
 				}
 			}
@@ -632,7 +632,7 @@ func atlasProblem(m *model3d.Mesh, uvm model3d.MeshUVMap, gutters bool) string {
 				b1 := gt[2].Sub(got).Cross(gt[0].Sub(got)).Dot(n) / den
 				b2 := 1 - b0 - b1
 				back := uv[0].Scale(b0).Add(uv[1].Scale(b1)).Add(uv[2].Scale(b2))
-				if back.Dist(q) > best+1e-6 {
+				if !(back.Dist(q) <= best+1e-6) {
 					return fmt.Sprintf("VIOLATION mapfn: UV point %v is %.6g from the triangulation, but was mapped to a point %.6g away (triangle %v)", q, best, back.Dist(q), *gt)
 				}
 			}
